@@ -139,6 +139,8 @@ class Engine:
         s.const_arrays = {}
         s.concretisations = {}
         s.logging = False
+        s.uninit_sym = False  # opt-in: a read of never-written malloc'd bytes yields arbitrary (fresh symbolic) bytes instead of 0
+        s.uninit_n = 0
         s.mt = False          # multi-threaded region active: accesses to watched (conflicting) objects are preemption points
         s.mt_record = None    # access recording pass: {oid: [(iter, lo, hi, is_write)]}
         s.mt_watch = {}       # oid -> list of (lo, hi) byte ranges with cross-iteration conflicts
@@ -517,7 +519,16 @@ class Engine:
         if o.arr is not None:
             return s.arr_load(o, off if type(off) is int else off[1], n)
         if type(off) is int:
-            return s.load_cells(o.data[off:off + n], n)
+            cells = o.data[off:off + n]
+            if s.uninit_sym and o.kind == 'heap' and None in cells:
+                # heap garbage: each never-written byte becomes one fresh symbolic byte, remembered in the object (stable on re-reads)
+                wo = st.wobj(ptr.obj)
+                for i in range(off, off + n):
+                    if wo.data[i] is None:
+                        s.uninit_n += 1
+                        wo.data[i] = z3.BitVec('uninit%d_o%d_%d' % (s.uninit_n, ptr.obj, i), 8)
+                cells = wo.data[off:off + n]
+            return s.load_cells(cells, n)
         return s.load_sym(st, o, off[1], n)
 
     # ---- array-mode objects: large objects indexed by symbolic offsets (hash tables of the compressors) live in a z3 array
@@ -671,11 +682,12 @@ class Engine:
             if env.get('fail_next_alloc'):
                 k = env.get('fault_count', 0) + 1
                 st.env = dict(env); st.env['fail_next_alloc'] = False; st.env['fault_count'] = k
-                st.failed_alloc = k
+                if st.failed_alloc == 0: st.failed_alloc = k          # index of the FIRST failure (symx_alloc_failed)
+                st.env['failed_allocs'] = tuple(env.get('failed_allocs', ())) + (k,)
                 st.notes.append('allocation #%d since faults were enabled (%d bytes) failed in %s' % (k, size, ' <- '.join(f.fn.name for f in reversed(st.frames[-6:]))))
                 return NULL
-            if st.failed_alloc == 0:
-                # fault fork: this very allocation fails on the forked path (exactly one failure per path)
+            if len(env.get('failed_allocs', ())) < int(st.fault_alloc):
+                # fault fork: this very allocation fails on the forked path (at most symx_fault_alloc(N) failures per path, N = 1 by default)
                 st2 = st.fork(); st2.frames[-1].ip -= 1; st2.nallocs -= 1
                 st2.env = dict(st2.env); st2.env['fail_next_alloc'] = True
                 s.work.append(st2)
@@ -937,7 +949,7 @@ class Engine:
                 s.exec_path(st)
             except Violation as v:
                 s.violations.append({'kind': v.kind, 'msg': v.msg, 'model': v.model, 'where': s.where(st), 'notes': st.notes[-8:], 'choices': st.choices[:],
-                                     'failed_alloc': st.failed_alloc, 'io_failed': st.env.get('io_failed'), 'io_fail_op': st.env.get('io_fail_op'), 'interfered': st.env.get('interfered'), 'poke': st.env.get('poke'), 'preempt_loc': st.env.get('preempt_loc'), 'steps': st.steps})
+                                     'failed_alloc': st.failed_alloc, 'failed_allocs': list(st.env.get('failed_allocs', ())), 'io_failed': st.env.get('io_failed'), 'io_fail_op': st.env.get('io_fail_op'), 'interfered': st.env.get('interfered'), 'poke': st.env.get('poke'), 'preempt_loc': st.env.get('preempt_loc'), 'steps': st.steps})
             except PathEnd as e:
                 if e.why == 'end':
                     s.finish_path(st)
@@ -988,7 +1000,7 @@ class Engine:
                     return mdl.eval(c, model_completion=True).as_long()
                 obs = [(tag, [ev(c) for c in cells]) for tag, cells in st.obs]
                 s.completed_samples.append({'inputs': s.model_dict(st, mdl), 'obs': obs, 'steps': st.steps, 'choices': st.choices[:], 'notes': st.notes[-6:],
-                                            'failed_alloc': st.failed_alloc, 'io_failed': st.env.get('io_failed'), 'io_fail_op': st.env.get('io_fail_op'), 'interfered': st.env.get('interfered'), 'poke': st.env.get('poke'), 'preempt_loc': st.env.get('preempt_loc')})
+                                            'failed_alloc': st.failed_alloc, 'failed_allocs': list(st.env.get('failed_allocs', ())), 'io_failed': st.env.get('io_failed'), 'io_fail_op': st.env.get('io_fail_op'), 'interfered': st.env.get('interfered'), 'poke': st.env.get('poke'), 'preempt_loc': st.env.get('preempt_loc')})
             except (EngineLimit, z3.Z3Exception):
                 pass
 
